@@ -138,3 +138,55 @@ func VerifC01ValuesT(tmpl string, allowUTF8, allowDup bool) {
 	vrt.Assert("C01/values/eof-iff-clean-stream", (err == io.EOF) == (tail == 0))
 	vrt.Assert("C01/values/value-count", values == wantN)
 }
+
+// VerifC01NS: duplicate-name detection across the namespace's switch from linear search to
+// a Go map (more than 64 names, or more than 1 KiB of names): an object with `count` concrete
+// distinct members a00, a01, ... (optionally preceded by one member whose name is 1100 bytes
+// long), followed by one member whose name is 'a' plus holeLen symbolic bytes, then `extra`
+// more concrete members b00.. and finally a member named 'b' plus holeLen symbolic bytes. Accepted iff the reference
+// recogniser accepts (names unique after unescaping unless duplicates are allowed), on
+// IsValid, the token path and the value path.
+func VerifC01NS(count int, longName bool, holeLen, extra int, allowDup bool) {
+	var b []byte
+	b = append(b, '{')
+	if longName {
+		b = append(b, '"')
+		for i := 0; i < 1100; i++ {
+			b = append(b, 'L')
+		}
+		b = append(b, '"', ':', '0', ',')
+	}
+	for i := 0; i < count; i++ {
+		b = append(b, '"', 'a', byte('0'+i/10), byte('0'+i%10), '"', ':', '0', ',')
+	}
+	h1 := vrt.Bytes("h", holeLen)
+	b = append(b, '"', 'a')
+	b = append(b, h1...)
+	b = append(b, '"', ':', '0')
+	for i := 0; i < extra; i++ {
+		b = append(b, ',', '"', 'b', byte('0'+i/10), byte('0'+i%10), '"', ':', '0')
+	}
+	if extra > 0 {
+		h2 := vrt.Bytes("g", holeLen)
+		b = append(b, ',', '"', 'b')
+		b = append(b, h2...)
+		b = append(b, '"', ':', '0')
+	}
+	b = append(b, '}')
+	want := zzspec.ValidText(b, true, !allowDup, 10000)
+	if want {
+		vrt.Cover("accept")
+	} else {
+		vrt.Cover("reject")
+	}
+	got := Value(b).IsValid(AllowDuplicateNames(allowDup))
+	vrt.Observe("got", got)
+	vrt.Assert("C01/ns/isvalid-iff-grammar", got == want)
+	d := new(Decoder)
+	d.s.reset(b, nil, AllowDuplicateNames(allowDup))
+	var err error
+	for err == nil {
+		_, err = d.ReadToken()
+	}
+	vrt.Assert("C01/ns/tokens-iff-grammar", (err == io.EOF) == want)
+}
